@@ -70,7 +70,18 @@ fn c01_crafted_shift_and_offset_patterns() {
             progs.push((format!("(sload(0) >> {shift:#x}) & {mask:02x?} -> sstore"), c));
         }
     }
-XX, format!("{name}: {code:02x?} permissive={perm}"), "PANIC".into(), "layout or error".into());
+    // mapping slot plus a huge constant: sstore(keccak(calldatasize ++ 1) + c, 1)
+    for c in [1u64, 0x100, 1 << 55, 1 << 56, 1 << 60, u64::MAX] {
+        let mut code = vec![0x36, 0x60, 0x00, 0x52, 0x60, 0x01, 0x60, 0x20, 0x52, 0x60, 0x40, 0x60, 0x00, 0x20, 0x67];
+        code.extend(c.to_be_bytes());
+        code.extend([0x01, 0x60, 0x01, 0x90, 0x55, 0x00]);
+        progs.push((format!("sstore(keccak(calldatasize ++ 1) + {c:#x}, 1)"), code));
+    }
+    let n = progs.len();
+    for (name, code) in progs {
+        for perm in [false, true] {
+            if let Out::Panic = analyze(&code, perm) {
+                witness("C01", "analyze.panic.crafted_offsets", format!("{name}: {code:02x?} permissive={perm}"), "PANIC".into(), "layout or error".into());
             }
         }
     }
